@@ -69,7 +69,7 @@ def required(tier):
     b.update({f'period:{p}': 40 for p in PERIODS})
     b.update({f'window:{k}': 40 for k in NCLASSES})
     b.update({f'dist:{d}': 100 for d in DISTS})
-    b.update({'real-api:integer-dtype-input:int8': 100, 'real-api:integer-dtype-input:int16': 20, 'real-api:integer-dtype-input:int64': 40})
+    b.update({'same-buffer-object-refilled-between-calls': 100, 'real-api:integer-dtype-input:int8': 100, 'real-api:integer-dtype-input:int16': 20, 'real-api:integer-dtype-input:int64': 40})
     b.update({'dist:const': 100, 'dist:nearconst': 20, 'dist:halfint': 10, 'ndim:2': 100, 'len:1': 20,
               'custom:none': 500, 'custom:scalar': 100, 'custom:pair': 50, 'explicit-stats': 50,
               'op:reset': 100, 'op:reset-mid-period': 40, 'op:set_target': 100, 'alias:digitize': 20,
@@ -491,6 +491,7 @@ def run_case(c, R):
             twin = Q.ComplexQuantizer(**kw)
             R.bucket('twin:imag-replaced' if c['twin_part'] == 1 else 'twin:real-replaced')
     ncall = 0
+    bufs = {}
     for step, op in enumerate(c['ops']):
         if op['op'] == 'reset':
             R.bucket('op:reset')
@@ -542,6 +543,15 @@ def run_case(c, R):
                     x = parts[0].copy()
             else:
                 x = parts[0].copy()
+        if not cx and c['sub'] % 3 == 0:
+            # the caller's ONE buffer object, refilled in place for every call (a ring buffer of voltages)
+            key_ = (x.shape, x.dtype.str)
+            if key_ in bufs:
+                bufs[key_][...] = x
+                x = bufs[key_]
+                R.bucket('same-buffer-object-refilled-between-calls')
+            else:
+                bufs[key_] = x
         if api == 'real':
             fn = q.digitize if call.get('alias') else q.quantize
             out, ev = guarded(fn, x) if cu is None else guarded(fn, x, custom_std=cu)
